@@ -66,6 +66,7 @@ type Thread struct {
 	Panic      any    // value of an escaped panic, if any
 	PanicStack string // stack at the panic
 	killedByChoice bool
+	OpStart        int // global step count when the thread's current API call began (see MarkOp)
 	Obs        uint64 // rolling hash of everything the thread observed
 	Steps      int
 }
@@ -156,6 +157,21 @@ func PointIf(kind string, obj uintptr, enabled func() bool) {
 		panic(killSentinel{})
 	}
 	// token is ours again (active was set by the scheduler)
+}
+
+// MarkOp records that the running thread begins a new API call now.
+func MarkOp() {
+	if t := active; t != nil && cur != nil {
+		t.OpStart = cur.Steps
+	}
+}
+
+// StepNow returns the number of steps executed so far in the current execution.
+func StepNow() int {
+	if cur != nil {
+		return cur.Steps
+	}
+	return 0
 }
 
 // WasKilled reports whether t was killed by a scheduler choice (as opposed to
